@@ -222,7 +222,7 @@ def case_lines(q, d, k, ref, P):
     return ["C %s %d %d %s" % (q, d, k, " ".join(map(str, ref)))] + ["p " + " ".join(map(str, p)) for p in P] + ["E"]
 
 def gen_case(rng, big, kind=None):
-    kind = kind or rng.choice(["R", "R", "H", "H", "H", "K", "K", "S"])
+    kind = kind or rng.choice(["R", "R", "H", "H", "H", "K", "K", "S", "S"])
     d, R = pick_dR(rng, big)
     if kind == "R":
         n = rng.choice([1, 2, 3, 5, 8, 13, 20, 30, 40] + ([60, 80] if big else []))
@@ -242,7 +242,18 @@ def gen_case(rng, big, kind=None):
         return case_lines(kind, d, k, make_ref(rng, P, d, R, strict=rng.random() < 0.85), P)
     if kind == "S":
         d = 2; R = rng.choice([2, 4, 7, 10]); n = rng.choice([1, 2, 3, 4, 6, 8, 10])
-        P = rng_points(rng, d, n, R); m = front_size(P)
+        P = rng_points(rng, d, n, R)
+        if rng.random() < 0.6:
+            # a strict staircase plus points that are dominated only through a TIE in one coordinate with a
+            # staircase point (same f2 / same f1): they must be filtered before the dynamic programme runs
+            R = rng.choice([5, 6, 8]); m0 = rng.randint(2, 5)
+            xs = sorted(rng.sample(range(0, R), min(m0, R))); ys = sorted(rng.sample(range(0, R), len(xs)), reverse=True)
+            P = [[x, y] for x, y in zip(xs, ys)]
+            for _ in range(rng.randint(1, 3)):
+                x, y = rng.choice(P[:len(xs)])
+                P.append([x + rng.randint(1, 2), y] if rng.random() < 0.6 else [x, y + rng.randint(1, 2)])
+            rng.shuffle(P)
+        m = front_size(P)
         return case_lines("S", 2, rng.randint(1, m), make_ref(rng, P, 2, R, strict=rng.random() < 0.85), P)
 
 def load_cases(ck, gen, n):
